@@ -2080,4 +2080,202 @@ theorem parse_fake_drop2 (w : World) (i : Nat) (a b : Str) (n p : Int) (ha : toI
     · simp only [h1, h2, if_false, or_self]; rfl
 end
 
+/-! ### training sequence detection (C10) -/
+
+abbrev TsEntry := String × Nat × String × List Nat × Nat
+
+/-- the matching predicate of `TrainingSeqGMSK.pick` -/
+def tsMatch (burst : List Nat) (e : TsEntry) : Bool :=
+  (e.2.2.1 == "NORMAL" && e.2.2.2.1 == sliceFrom burst (3 + 57 + 1) 26) ||
+  (e.2.2.1 == "ACCESS" && e.2.2.2.1 == sliceFrom burst 8 41) ||
+  (e.2.2.1 == "SYNC" && e.2.2.2.1 == sliceFrom burst (3 + 39) 64)
+
+theorem trainSeqPick_eq (burst : List Nat) :
+    trainSeqPick burst = (Gen.World.trainSeqs.find? (tsMatch burst)).map (fun e => (e.2.1, e.2.2.2.2)) := by
+  unfold trainSeqPick
+  have : (fun (x : TsEntry) => match x with
+      | (_, _, bt, seq, _) =>
+        (bt == "NORMAL" && seq == sliceFrom burst (3 + 57 + 1) 26) ||
+        (bt == "ACCESS" && seq == sliceFrom burst 8 41) ||
+        (bt == "SYNC" && seq == sliceFrom burst (3 + 39) 64)) = tsMatch burst := by
+    funext x; obtain ⟨a, b, c, d, e⟩ := x; rfl
+  simp only [this]
+  cases Gen.World.trainSeqs.find? (tsMatch burst) with
+  | none => rfl
+  | some e => obtain ⟨a, b, c, d, f⟩ := e; rfl
+
+theorem tsMatch_iff (burst : List Nat) (e : TsEntry) : tsMatch burst e = true ↔ Spec.presentAt e burst := by
+  obtain ⟨nm, tsc, bt, seq, set⟩ := e
+  unfold tsMatch Spec.presentAt Spec.tsPos sliceFrom
+  simp only [Bool.or_eq_true, Bool.and_eq_true, beq_iff_eq]
+  by_cases h1 : bt = "NORMAL"
+  · subst h1
+    simp only [if_true, true_and]
+    have a : ¬ ("NORMAL" = "ACCESS") := by decide
+    have b : ¬ ("NORMAL" = "SYNC") := by decide
+    simp only [a, b, false_and, or_false]
+    exact eq_comm
+  · by_cases h2 : bt = "SYNC"
+    · subst h2
+      have a : ¬ ("SYNC" = "ACCESS") := by decide
+      have b : ¬ ("SYNC" = "NORMAL") := by decide
+      simp only [a, b, false_and, false_or, if_false, if_true, true_and]
+      exact eq_comm
+    · by_cases h3 : bt = "ACCESS"
+      · subst h3
+        have a : ¬ ("ACCESS" = "SYNC") := by decide
+        have b : ¬ ("ACCESS" = "NORMAL") := by decide
+        simp only [a, b, false_and, false_or, or_false, if_false, if_true, true_and]
+        exact eq_comm
+      · simp only [h1, h2, h3, false_and, or_self, if_false]
+
+/-- whatever `pick` returns is a table sequence that is present at its position in the burst -/
+theorem trainSeqPick_present (burst : List Nat) (t s : Nat) (h : trainSeqPick burst = some (t, s)) :
+    ∃ e ∈ Gen.World.trainSeqs, e.2.1 = t ∧ e.2.2.2.2 = s ∧ Spec.presentAt e burst := by
+  rw [trainSeqPick_eq] at h
+  cases hf : Gen.World.trainSeqs.find? (tsMatch burst) with
+  | none => rw [hf] at h; cases h
+  | some e =>
+    rw [hf] at h
+    simp only [Option.map_some, Option.some.injEq, Prod.mk.injEq] at h
+    exact ⟨e, List.mem_of_find?_eq_some hf, h.1, h.2, (tsMatch_iff burst e).1 (List.find?_some hf)⟩
+
+/-- if a table sequence is present at its position, `pick` finds one (the first in enumeration
+order); if it is the only one present, exactly that one -/
+theorem trainSeqPick_of_present (burst : List Nat) (e : TsEntry) (he : e ∈ Gen.World.trainSeqs)
+    (hp : Spec.presentAt e burst) :
+    (∃ e' ∈ Gen.World.trainSeqs, Spec.presentAt e' burst ∧ trainSeqPick burst = some (e'.2.1, e'.2.2.2.2)) ∧
+    ((∀ e' ∈ Gen.World.trainSeqs, Spec.presentAt e' burst → e' = e) →
+      trainSeqPick burst = some (e.2.1, e.2.2.2.2)) := by
+  have hsome : (Gen.World.trainSeqs.find? (tsMatch burst)).isSome := by
+    rw [List.find?_isSome]
+    exact ⟨e, he, (tsMatch_iff burst e).2 hp⟩
+  obtain ⟨e', he'⟩ := Option.isSome_iff_exists.1 hsome
+  have hm := List.mem_of_find?_eq_some he'
+  have hp' := (tsMatch_iff burst e').1 (List.find?_some he')
+  have hr : trainSeqPick burst = some (e'.2.1, e'.2.2.2.2) := by rw [trainSeqPick_eq, he']; rfl
+  refine ⟨⟨e', hm, hp', hr⟩, fun hu => ?_⟩
+  rw [hr, hu e' hm hp']
+
+theorem slice_mid (a seq b : List Nat) : ((a ++ seq ++ b).drop a.length).take seq.length = seq := by
+  rw [List.append_assoc, List.drop_left, List.take_left]
+
+/-- lengths of the table sequences per burst type -/
+theorem seq_lengths : ∀ e ∈ Gen.World.trainSeqs,
+    (e.2.2.1 = "NORMAL" → e.2.2.2.1.length = 26) ∧ (e.2.2.1 = "SYNC" → e.2.2.2.1.length = 64) ∧
+    (e.2.2.1 = "ACCESS" → e.2.2.2.1.length = 41) := by decide +kernel
+
+theorem nb_present (e : TsEntry) (he : e ∈ Gen.World.trainSeqs) (hbt : e.2.2.1 = "NORMAL")
+    (d1 : List Nat) (s1 s2 : Nat) (d2 : List Nat) (hd1 : d1.length = 57) :
+    Spec.presentAt e (Spec.nbLayout d1 s1 e.2.2.2.1 s2 d2) := by
+  have hl := (seq_lengths e he).1 hbt
+  unfold Spec.presentAt
+  rw [hbt]
+  have : Spec.tsPos "NORMAL" = some (61, 26) := by decide
+  rw [this]
+  dsimp only
+  have h := slice_mid ([0, 0, 0] ++ d1 ++ [s1]) e.2.2.2.1 ([s2] ++ d2 ++ [0, 0, 0])
+  have hlen : ([0, 0, 0] ++ d1 ++ [s1]).length = 61 := by simp [hd1]
+  rw [hlen, hl] at h
+  refine Eq.trans ?_ h
+  simp only [Spec.nbLayout, List.append_assoc]
+
+theorem sb_present (e : TsEntry) (he : e ∈ Gen.World.trainSeqs) (hbt : e.2.2.1 = "SYNC")
+    (d1 d2 : List Nat) (hd1 : d1.length = 39) :
+    Spec.presentAt e (Spec.sbLayout d1 e.2.2.2.1 d2) := by
+  have hl := (seq_lengths e he).2.1 hbt
+  unfold Spec.presentAt
+  rw [hbt]
+  have : Spec.tsPos "SYNC" = some (42, 64) := by decide
+  rw [this]
+  dsimp only
+  have h := slice_mid ([0, 0, 0] ++ d1) e.2.2.2.1 (d2 ++ [0, 0, 0])
+  have hlen : ([0, 0, 0] ++ d1).length = 42 := by simp [hd1]
+  rw [hlen, hl] at h
+  refine Eq.trans ?_ h
+  simp only [Spec.sbLayout, List.append_assoc]
+
+theorem ab_present (e : TsEntry) (he : e ∈ Gen.World.trainSeqs) (hbt : e.2.2.1 = "ACCESS")
+    (d : List Nat) : Spec.presentAt e (Spec.abLayout e.2.2.2.1 d) := by
+  have hl := (seq_lengths e he).2.2 hbt
+  unfold Spec.presentAt
+  rw [hbt]
+  have : Spec.tsPos "ACCESS" = some (8, 41) := by decide
+  rw [this]
+  dsimp only
+  have h := slice_mid (List.replicate 8 0) e.2.2.2.1 (d ++ [0, 0, 0] ++ List.replicate 60 0)
+  have hlen : (List.replicate 8 (0 : Nat)).length = 8 := by simp
+  rw [hlen, hl] at h
+  refine Eq.trans ?_ h
+  simp only [Spec.abLayout, List.append_assoc]
+/-! ### modulation by burst length, table facts (C10) -/
+
+/-- `Modulation.pick_by_bl`: the FIRST enum member with that burst length -/
+theorem pickByBl_first (b : Int) (mod : Trxd.Modulation) (h : Trxd.Modulation.pickByBl b = some mod) :
+    (mod.bl : Int) = b ∧ ∀ m' : Trxd.Modulation, m'.val < mod.val → (m'.bl : Int) ≠ b := by
+  unfold Trxd.Modulation.pickByBl at h
+  obtain ⟨hp, as, bs, hl, hbefore⟩ := List.find?_eq_some_iff_append.1 h
+  refine ⟨by simpa using hp, fun m' hlt => ?_⟩
+  have hm' : m' ∈ as := by
+    have hall : m' ∈ Trxd.Modulation.all := List.mem_finRange m'
+    rw [hl] at hall
+    rcases List.mem_append.1 hall with h1 | h1
+    · exact h1
+    · exfalso
+      -- `all` is strictly increasing, so everything from `mod` on is ≥ mod
+      have hsorted : (Trxd.Modulation.all).Pairwise (· < ·) := by decide
+      rw [hl] at hsorted
+      have := (List.pairwise_append.1 hsorted).2.1
+      rcases List.mem_cons.1 h1 with h2 | h2
+      · rw [h2] at hlt; exact Nat.lt_irrefl _ hlt
+      · have := (List.pairwise_cons.1 this).1 m' h2
+        exact Nat.lt_irrefl _ (Nat.lt_trans hlt this)
+  simpa using hbefore m' hm'
+
+theorem pickByBl_none (b : Int) (h : Trxd.Modulation.pickByBl b = none) :
+    ∀ m : Trxd.Modulation, (m.bl : Int) ≠ b := by
+  unfold Trxd.Modulation.pickByBl at h
+  intro m
+  have := List.find?_eq_none.1 h m (List.mem_finRange m)
+  simpa using this
+
+/-- 148 symbols: GMSK; 444: 8-PSK -/
+theorem pickByBl_values :
+    Trxd.Modulation.pickByBl 148 = some Trxd.Modulation.gmsk ∧
+    (Trxd.Modulation.pickByBl 148).map Trxd.Modulation.name = some "ModGMSK" ∧
+    (Trxd.Modulation.pickByBl 444).map Trxd.Modulation.name = some "Mod8PSK" := by decide
+
+/-- the generated sequences of one burst type are pairwise distinct, and so are their TSCs:
+(TSC, TSC set) identifies the sequence within its burst type -/
+theorem trainSeqs_distinct :
+    Gen.World.trainSeqs.Pairwise (fun a b => a.2.2.1 = b.2.2.1 →
+      a.2.2.2.1 ≠ b.2.2.2.1 ∧ (a.2.1, a.2.2.2.2) ≠ (b.2.1, b.2.2.2.2)) := by decide +kernel
+
+/-- every table entry is of one of the three burst types, has a TSC in 0..7 and TSC set 0 -/
+theorem trainSeqs_ranges : ∀ e ∈ Gen.World.trainSeqs,
+    (e.2.2.1 = "NORMAL" ∨ e.2.2.1 = "SYNC" ∨ e.2.2.1 = "ACCESS") ∧ e.2.1 ≤ 7 ∧ e.2.2.2.2 = 0 := by
+  decide +kernel
+/-! ### hypotheses of one forwarding call, bundled -/
+
+/-- recipient `k` (= `r`) of world `w` is handed the burst `s` (frame `fn`, octets `bits`) of sender
+`j` (= `src`) by the forwarder — `rx` is `rx_msg.trans(ver = r's header version)` of the message
+the forwarder hands on — and the call returns normally with world `w'` and datagrams `dk` -/
+structure FwdCall (w : World) (k j : Nat) (s : Trxd.TxMsg) (r src : Trx) (fn : Int)
+    (bits : List Nat) (rx : Trxd.RxMsg) (w' : World) (dk : List Dgram) : Prop where
+  hk : w.trxs[k]? = some r
+  hj : w.trxs[j]? = some src
+  hwf : Spec.DropWF r
+  hfn : s.fn = some fn
+  hb : s.burst = some bits
+  hbits : ∀ b ∈ bits, b < 256
+  hrx : (fwdInput src s).trans (some r.hdrVer) = .ok rx
+  h : handleDataMsg w k j (fwdInput src s) rx = .ok (w', dk)
+
+theorem FwdCall.spec {w : World} {k j : Nat} {s : Trxd.TxMsg} {r src : Trx} {fn : Int}
+    {bits : List Nat} {rx : Trxd.RxMsg} {w' : World} {dk : List Dgram}
+    (c : FwdCall w k j s r src fn bits rx w' dk) :
+    CallSpec r src s fn bits dk ∧ CallWorld w k r src fn w' := by
+  obtain ⟨hk, hj, hwf, hfn, hb, hbits, hrx, h⟩ := c
+  exact handleDataMsg_spec w k j s r src fn bits rx w' dk hk hj hwf hfn hb hbits hrx h
+
 end OsmoVerif.World
